@@ -606,9 +606,77 @@ func rulePad(c *Ctx) {
 	if fd == nil {
 		return
 	}
-	if len(paramObjs(p, fd)) != 6 {
-		c.undecided("pad.shape", fd, "pad(buf, width, printSign, padSign, padRight, padZero) expected", props...)
+	// Which parameter (or field of a struct parameter) carries which flag is read off the call in
+	// fmtF, whose own parameters are (buf, prec, width, forceDP, printSign, padSign, padRight, padZero).
+	type slot struct {
+		param int
+		field string
+	}
+	roles := map[string]slot{} // buf, width, printSign, padSign, padRight, padZero
+	pps := paramObjs(p, fd)
+	if caller := c.fn("digits.fmtF"); caller != nil && caller.Body != nil {
+		cps := paramObjs(p, caller)
+		roleOf := map[types.Object]string{}
+		if len(cps) == 8 {
+			for i, r := range map[int]string{2: "width", 4: "printSign", 5: "padSign", 6: "padRight", 7: "padZero"} {
+				roleOf[cps[i]] = r
+			}
+		}
+		ast.Inspect(caller.Body, func(n ast.Node) bool {
+			call, ok := n.(*ast.CallExpr)
+			if !ok || p.callee(call) == nil || p.callee(call) != p.Info.Defs[fd.Name] || len(call.Args) != len(pps) {
+				return true
+			}
+			for i, a := range call.Args {
+				a = ast.Unparen(a)
+				if sl, ok := pps[i].Type().Underlying().(*types.Slice); ok && types.Identical(sl.Elem(), types.Typ[types.Byte]) {
+					roles["buf"] = slot{i, ""}
+					continue
+				}
+				if st, ok := pps[i].Type().Underlying().(*types.Struct); ok {
+					cl, ok := a.(*ast.CompositeLit)
+					if !ok {
+						continue
+					}
+					for j, el := range cl.Elts {
+						name, val := "", el
+						if kv, ok := el.(*ast.KeyValueExpr); ok {
+							name, val = kv.Key.(*ast.Ident).Name, kv.Value
+						} else if j < st.NumFields() {
+							name = st.Field(j).Name()
+						}
+						if r, ok := roleOf[p.objOf(val)]; ok && name != "" {
+							roles[r] = slot{i, name}
+						}
+					}
+					continue
+				}
+				if r, ok := roleOf[p.objOf(a)]; ok {
+					roles[r] = slot{i, ""}
+				}
+			}
+			return true
+		})
+	}
+	if len(roles) != 6 {
+		c.undecided("pad.shape", fd, "pad must receive the buffer, the width and the four flags of fmtF (buf, width, printSign, padSign, padRight, padZero)", props...)
 		return
+	}
+	bind := func(vals map[string]peVal) []peVal {
+		out := make([]peVal, len(pps))
+		for r, sl := range roles {
+			if sl.field == "" {
+				out[sl.param] = vals[r]
+				continue
+			}
+			st, _ := out[sl.param].(*peStruct)
+			if st == nil {
+				st = &peStruct{f: map[string]peVal{}}
+				out[sl.param] = st
+			}
+			st.f[sl.field] = vals[r]
+		}
+		return out
 	}
 	bad := ""
 	n := 0
@@ -633,7 +701,15 @@ func rulePad(c *Ctx) {
 					}
 					ev := &peEval{p: p}
 					recv := pePtr{&peStruct{f: map[string]peVal{"neg": peBool{text[0] == '-'}}}}
-					args := []peVal{mk(text, len(text)+extra), peInt{int64(width)}, peBool{text[0] == '+'}, peBool{text[0] == ' '}, peBool{padRight}, peBool{padZero}}
+					args := bind(map[string]peVal{"buf": mk(text, len(text)+extra), "width": peInt{int64(width)}, "printSign": peBool{text[0] == '+'}, "padSign": peBool{text[0] == ' '}, "padRight": peBool{padRight}, "padZero": peBool{padZero}})
+					for _, a := range args {
+						if a == nil {
+							bad = "a parameter of pad is not fed from fmtF's buffer, width or flags"
+						}
+					}
+					if bad != "" {
+						break
+					}
 					res, why := ev.run(fd, recv, args)
 					n++
 					pad := width - len(text)
